@@ -67,6 +67,11 @@ func runRelay(r *core.Run) {
 			opt.MaxDests = 100
 		}
 		opt.Shape = c.Pick(10, 1, 1)
+		if (len(items)+int(r.Cfg.Index))%6 == 5 {
+			opt.Twin = 1 + int(r.Cfg.Index/6)%977 // coherent address triples, two fields with one value
+		} else {
+			opt.Twin = 0
+		}
 		m := spec.Gen(c, pd, opt)
 		it := item{pd: pd}
 		switch c.Pick(4, 3, 5) {
